@@ -46,7 +46,7 @@ pub fn child(f: CmdFn) {
                     Ok(v) => v,
                     Err(e) => {
                         let mut o = stdout.lock();
-                        writeln!(o, "{}", json!({"outcome":"badcase","msg":e.to_string()})).unwrap();
+                        writeln!(o, "\n{}{}", MARK, json!({"outcome":"badcase","msg":e.to_string()})).unwrap();
                         o.flush().unwrap();
                         continue;
                     }
@@ -62,7 +62,8 @@ pub fn child(f: CmdFn) {
                     }
                 };
                 let mut o = stdout.lock();
-                writeln!(o, "{}", out).unwrap();
+                // the code under test may print to stdout: result lines start on a fresh line with a marker
+                writeln!(o, "\n{}{}", MARK, out).unwrap();
                 o.flush().unwrap();
             }
         })
@@ -70,6 +71,7 @@ pub fn child(f: CmdFn) {
     let _ = t.join();
 }
 
+const MARK: &str = "@@VERIF-RESULT@@";
 thread_local! {
     static LAST_PANIC: std::cell::RefCell<Option<(String,String)>> = std::cell::RefCell::new(None);
 }
@@ -123,6 +125,7 @@ pub fn parent(cmd: &str, infile: &str, outfile: &str, timeout_ms: u64) {
         loop {
             match rx.recv_timeout(Duration::from_millis(timeout_ms)) {
                 Ok(Some(l)) => {
+                    let Some(l) = l.strip_prefix(MARK) else { continue };   // chatter of the code under test
                     writeln!(out, "{}", l).unwrap();
                     next += 1;
                     if next >= cases.len() {
